@@ -614,7 +614,8 @@ def block_nonblank_chains(c: Ctx, r: RuleResult | None = None) -> dict[str, bool
                 r.add(f"nonblank|{g.short}|{alt}", c.where(g, call), g.short, U(call)[:80], "discharged",
                       (f"chain '{alt}' dispatch: " + how) if ok else
                       f"chain '{alt}' dispatch does not establish a non-blank line (rules on this chain must guard their first read)")
-    if len(found) < 5:
+    # the main chain plus the terminator chains; rules may share one dispatching helper, so the count is a sanity floor only
+    if len(found) < 3:
         raise AnchorError(f"only {len(found)} block dispatch sites found (expected main + terminator chains)")
     return out
 
